@@ -158,6 +158,11 @@ func decodeWithNewMessage(
 }
 
 func init() {
-	errbase.RegisterWrapperEncoder(errbase.GetTypeKey((*withNewMessage)(nil)), encodeWithNewMessage)
+	errbase.RegisterWrapperEncoderWithMessageType(errbase.GetTypeKey((*withNewMessage)(nil)),
+		func(ctx context.Context, err error) (string, []string, proto.Message, errbase.MessageType) {
+			msg, details, payload := encodeWithNewMessage(ctx, err)
+			// The message replaces that of the cause.
+			return msg, details, payload, errbase.FullMessage
+		})
 	errbase.RegisterWrapperDecoder(errbase.GetTypeKey((*withNewMessage)(nil)), decodeWithNewMessage)
 }
